@@ -111,6 +111,31 @@ let () =
        | ["parse"; h] ->
          if spec then emit "??*" else emit (res_str 1 (parse (bytes_of_hex h)));
          s
+       | ["parse2"; flag; h1; h2] ->
+         (if spec then emit "1 | ??* | ??*" else begin
+            let shared = (flag = "1") in
+            let (o1, r1) = parse_with (new_parser (z_of_int 12345)) Nul (bytes_of_hex h1) in
+            let kept = (match r1 with Ok n when shared -> n | _ -> Nul) in
+            let (_, r2) = parse_with o1 kept (bytes_of_hex h2) in
+            emit (Printf.sprintf "1 | %s | %s" (res_str 1 r1) (res_str 1 r2)) end);
+         s
+       | ["pinto"; h] ->
+         (if spec then emit "1 | ??*" else begin
+            let (_, r) = parse_with (new_parser (z_of_int 12345)) (current s) (bytes_of_hex h) in
+            emit ("1 | " ^ res_str 1 r) end);
+         s
+       | ["rtinto"] ->
+         let e = current s in
+         if spec then (if wf_tree e then emit ("rtinto ok" ^ dump_s 2 e) else emit "??*")
+         else emit ("rtinto " ^ res_str 1 (snd (parse_with (new_parser (z_of_int 12345)) e (toString e))));
+         s
+       | ["sparse"; _; h] ->
+         (if spec then emit "??*" else
+            match static_parse (z_of_int 12345) Nul (bytes_of_hex h) with
+            | Syn (l, c, m) ->
+              emit ("serr " ^ hex_of_string (Printf.sprintf "Syntax error at line %s, column %s: %s" (dec_of_z l) (dec_of_z c) (msg_text m)))
+            | r -> emit (res_str 1 r));
+         s
        | ["ent"; h] ->
          (* <a v="&NAME;"/> : the attribute value read back *)
          let nm = bytes_of_hex h in
